@@ -88,16 +88,36 @@ def gen_plan(seed, cfg):
         n = rng.choice([2, 2, 3, 3, 4])
     nprob = rng.randint(1, 4)
     use_cffi = rng.random() < (0.12 if tier == "quick" else 0.2)
+    # swarm: a share of the runs concentrates on one kind of contention
+    r_mode = rng.random()
+    mode = "mixed"
+    if r_mode < 0.07:
+        mode = "cffi_storm"  # every thread's first call compiles a different, never-seen C kernel
+        n = min(n, 4)
+        nprob = n
+    elif r_mode < 0.17:
+        mode = "same_method"  # all threads call one method with different argument sets
+        nprob = 1
     problems = []
+    picks = rng.sample(range(len(CATALOG)), min(nprob, len(CATALOG)))
     for k in range(nprob):
-        ci = rng.randrange(len(CATALOG))
+        ci = picks[k] if mode == "cffi_storm" else rng.randrange(len(CATALOG))
         backend = "cffi" if use_cffi and rng.random() < 0.7 else "llvm"
         entry = rng.choice(ENTRY_POINTS)
+        prewarm = rng.random() < 0.4
+        if mode == "cffi_storm":
+            backend, prewarm = "cffi", False
         problems.append({"catalog": ci, "name": f"o{seed % 100000:05d}x{k}", "backend": backend,
-                         "entry": entry, "prewarm": rng.random() < 0.4})
+                         "entry": entry, "prewarm": prewarm})
     used_variants = rng.choice([[0], [0, 1], [1, 2], [0, 1, 2]])
     threads = [[[rng.randrange(nprob), rng.choice(used_variants)]
                 for _ in range(rng.randint(1, 4 if n <= 4 else 2))] for _ in range(n)]
+    if mode == "cffi_storm":
+        for i in range(n):
+            threads[i] = [[i % nprob, rng.choice(used_variants)]] + threads[i][:1]
+    if mode == "same_method" and len(used_variants) == 1:
+        used_variants = [0, rng.choice([1, 2])]
+        threads = [[[0, rng.choice(used_variants)] for _ in t] for t in threads]
     data = [{k: _gen_entries(rng, v[k]) for k in sorted(SHARED)} for v in VARIANTS]
     strategy = rng.choice(["coin", "coin", "pct", "targeted", "targeted"])
     sp = {"strategy": strategy,
@@ -118,7 +138,15 @@ def gen_plan(seed, cfg):
     # interpreter (measured: 7080 vs 7261 steps for the same plan, first vs later run).  The tracer
     # still understands sched["opcodes"], but no plan sets it.
     hk = gen_heap_knobs(rng)
-    return {"engine": "T", "run_seed": seed, "hashseed": seed % 8, "n": n, "problems": problems,
+    if mode == "cffi_storm":
+        strategy = rng.choice(["coin", "targeted"])
+        sp["strategy"] = strategy
+        sp["p_hot"] = rng.choice([0.02, 0.05, 0.1])
+        if strategy == "targeted":
+            sp["force_windows"] = {"cffi_recompile": rng.randint(2, 6), "cffi_platform": rng.randint(1, 4),
+                                   "compile_evaluate": rng.randint(1, 3)}
+        sp.pop("change_points", None)
+    return {"engine": "T", "run_seed": seed, "hashseed": seed % 8, "n": n, "mode": mode, "problems": problems,
             "threads": threads, "data": data, "sched": sp, "heap": hk,
             "capacity": rng.choice([1, 1, 2, 3, 8, 1 << 20]), "decisions": None}
 
